@@ -15,70 +15,72 @@ CHECKS = {
     technique='symbolic execution of the real minifier code with z3 strings for all leaf spellings over a bounded, table-derived structure space; path models replayed',
     engine='SX+GX+RX'),
  'C20': dict(
-    level=('other', 'The real pretty printer runs under SX with the INDENTATION STRING symbolic (z3 string over space/tab, length <= 3, empty included) and symbolic leaf spellings on every structure of the C01 space; per path z3 decides that every token-starting line begins with exactly indent_str x depth (depth from an independent brace/case counter over the output skeleton), final depth 0, exactly one trailing newline.', 'DESIGN.md C20'),
+    level=('other', 'The real pretty printer runs under SX with the INDENTATION STRING symbolic (z3 string over space/tab, length <= 3, empty included) and symbolic leaf spellings on every structure of the C01 space; per path z3 decides that every token-starting line begins with exactly indent_str x depth (depth from an independent brace/case counter over the output skeleton), final depth 0, exactly one trailing newline; a reuse leg (symbolic abandon index) renders on a printer object that was abandoned mid-way before; a replay leg places comments (incl. CR/CRLF line comments).', 'DESIGN.md C20'),
     note='Trusted: the depth reference (open braces + 1 in case/default bodies). Outside: comments and multi-line tokens, deeper programs, histories of printer reuse (C14).',
     technique='symbolic execution of the real pretty printer with a symbolic indentation string and symbolic leaves (z3 strings), bounded structure space',
     engine='SX+GX+RX'),
  'C03': dict(
     level=('model_checking', 'Bounded monolithic SAT: for each length n one query over ALL token strings in Sigma^n (91 terminals) decides LR-SAT(real ply LALR tables regenerated from the working tree, plus the ProductionError side condition found by executing the actions) against CFG-SAT(ECMA-262 Annex A.3-A.5 reference grammar), both directions, and - where both accept - equality of every labelled node span (node kind from executing the real p_* action + terminal skeleton). '
-                              'A second leg compares the yield language of each of 100 corresponding non-terminals (phrases <= 6/7 tokens), embedding and replaying every witness, which reaches deviations whose smallest program is longer than the sentence bound. quick: acceptance n<=7, tree n<=6; thorough: 9 / 8.', 'DESIGN.md C03'),
-    note='Trusted: ply LRParser drives the tables as LR theory says (validated each run on all accepted strings up to length 3/4 and on every witness through the real engine); z3 as SAT solver (sat models always replayed); ref/es5_syntactic.gram as the reading of the standard. Outside: longer sentences, the lexical grammar and lexer feedback (C05/C06), early errors. Labels not compared: Identifier/PropIdentifier/VarDecl (factoring differs between the grammars).',
-    technique='bounded SAT encoding of the real LALR tables (LR-SAT) vs a reference CFG (CFG-SAT), all token strings up to length n per query; witnesses replayed on the real ply engine',
-    engine='GX'),
+                              'A second leg compares the yield language of each of 100 corresponding non-terminals (phrases <= 7/8 tokens), embedding and replaying every witness, which reaches deviations whose smallest program is longer than the sentence bound. '
+                              'A third leg decides, as z3 regular-language (in)equivalence over strings of any length, that the live token patterns (identifier, number, string, regex, both comments) generate the ES5 clause 7 languages (Annex B forms not judged), and compares punctuators, reserved words, white space and the non-ASCII identifier classes as finite sets. quick: acceptance n<=7, tree n<=6; thorough: 9 / 8.', 'DESIGN.md C03'),
+    note='Trusted: ply LRParser drives the tables as LR theory says (validated each run on all accepted strings up to length 3/4 and on every witness through the real engine); z3 as SAT solver (sat models always replayed); ref/es5_syntactic.gram and ref/es5_lexical.py as the reading of the standard. Outside: longer sentences, lexer feedback (C04/C05), master-pattern priority (C06), contextual get/set, early errors. Labels not compared: Identifier/PropIdentifier/VarDecl (factoring differs between the grammars).',
+    technique='bounded SAT encoding of the real LALR tables (LR-SAT) vs a reference CFG (CFG-SAT), all token strings up to length n per query; z3 regular-language equivalence of the token patterns vs the ES5 lexical grammar; witnesses replayed on the real ply engine / lexer',
+    engine='GX+RX'),
  'C16': dict(
-    level=('other', 'Complete enumeration of the finite spaces the property is about - every p_* action executed on every combination of child value shapes (presence/absence/list) it can receive, children() compared with attribute reflection; every accepted token string of length <= 4/5 (from the real tables) parsed and walked against a reflection-based reference traversal - plus SX symbolic execution of Walker.extract with a symbolic skip count (z3 decides the loop). '
+    level=('other', 'Complete enumeration of the finite spaces the property is about - every p_* action executed on every combination of child value shapes (presence/absence/list) it can receive, children() compared with attribute reflection for the node built and every node nested in it; every accepted token string of length <= 4/5 (from the real tables) parsed and walked against a reflection-based reference traversal - plus SX symbolic execution of Walker.extract with a symbolic skip count (z3 decides the loop). '
                     'The solver only contributes the extract leg: optional-part presence is a finite Python-level (is None) structure that no solver variable can stand for, so that part is exhaustive enumeration and said so.', 'DESIGN.md C16'),
     note='Trusted: vars(node) reflection as the definition of "stored in an attribute"; the comments attribute is excluded (comment nodes are not children by design). Outside: trees of the T leg longer than the bound.',
     technique='exhaustive enumeration of child-shape combinations per production and of bounded accepted token strings (from the real LALR tables) + symbolic execution (z3) of Walker.extract with symbolic skip',
     engine='SX+GX'),
  'C18': dict(
-    level=('fault_enumeration', 'The real io.read/io.write/write_sourcemap run under SX with stream doubles that raise when a shared call counter equals a SYMBOLIC fault index; z3 decides every comparison, so each explored path is one feasible fault position (every factory call, read, parse, unparse step, write, writelines) or the fault-free run, for 42 (quick) / 200+ (thorough) stream arrangements; closing discipline and propagation asserted on every path, content/URL/map equality with the lower-level API on the fault-free path.', 'DESIGN.md C18'),
+    level=('fault_enumeration', 'The real io.read/io.write/write_sourcemap run under SX with stream doubles that raise when a shared call counter equals a SYMBOLIC fault index; z3 decides every comparison, so each explored path is one feasible fault position (every factory call, read, parse, unparse step, write, writelines) or the fault-free run, for 56 (quick) / 200+ (thorough) stream arrangements (one with non-ASCII names whose inline map needs + and / of base64, decoded strictly); closing discipline and propagation asserted on every path, content/URL/map equality with the lower-level API on the fault-free path.', 'DESIGN.md C18'),
     note='Trusted: stream doubles model any stream; expected paths computed with os.path.relpath. Outside: faults in close(), two faults per run, symbolic path strings.',
     technique='symbolic execution of the real Python code with a symbolic fault index (z3 Int) over instrumented stream doubles',
     engine='SX'),
  'C17': dict(
-    level=('model_checking', 'Four parser configurations are built by the real code in separate interpreters on scratch copies (generated modules, in-memory un-optimised, helper first-build, helper re-optimise); their LALR tables are compared pairwise by LR-SAT in-equivalence queries over all token strings up to length 5/7 (identical tables give a syntactically unsatisfiable formula, differing ones a SAT search for a distinguishing input); master lexer patterns and rule bindings compared alternative by alternative; SX proves for every spelling that each lexer rule function returns a declared token type (the check ply skips in optimised mode, so a violation is exactly an input on which the modes diverge).', 'DESIGN.md C17'),
+    level=('model_checking', 'Six parser configurations are built by the real code in separate interpreters on scratch copies (generated modules, in-memory un-optimised, helper first-build, helper re-optimise, and the helper run from a partial stale module set: stale yacctab only / stale lextab only); their LALR tables are compared pairwise by LR-SAT in-equivalence queries over all token strings up to length 5/7 (identical tables give a syntactically unsatisfiable formula, differing ones a SAT search for a distinguishing input); master lexer patterns and rule bindings compared alternative by alternative; SX proves for every spelling that each lexer rule function returns a declared token type (the check ply skips in optimised mode, so a violation is exactly an input on which the modes diverge).', 'DESIGN.md C17'),
     note='Trusted: ply semantics; textual identity of master regexes implies equal lexing. Outside: longer inputs; language-equivalence of textually different master patterns is reported as inconclusive, not decided.',
     technique='bounded SAT in-equivalence of LALR table sets (LR-SAT) + symbolic execution (z3 strings) of the lexer rule functions',
     engine='GX+SX'),
  'C04': dict(
     level=('other', 'S: the real Lexer wrapper (auto_semi, _is_prev_token_lt, _get_update_token, _token) runs under SX on a raw-token source whose kinds are symbolic finite-domain z3 values; over all kind sequences of <= 3/4 raw items z3 decides that a semicolon is supplied iff the offending token is `}` or separated by a line terminator (also inside a multi-line comment / not a multi-line string), and that the lexer emits the virtual semicolon exactly at the first terminator after return/break/continue/throw (with <= 2 arbitrary tokens before and <= 3 layout items after). '
+                    'Symbolic counterexamples are rendered as text and replayed through the plain lexer against an independent scan of the layout. '
                     'T (replay of the metamorphic statement): table-derived structures x every statement-terminating `;` x 13 separating layouts, judged against 7.9 evaluated on the real LALR tables (offending = prefix.token not viable).', 'DESIGN.md C04'),
     note='Trusted: the raw-token source as a model of the regex level; the real tables as the grammar (C03). Outside: several omitted semicolons at once; longer programs. The structure/layout product of leg T is exploration, stated as such.',
     technique='symbolic execution of the real lexer wrapper on symbolic token kinds (z3 finite domain) against a ghost oracle + table-driven metamorphic replay',
     engine='SX+GX'),
  'C05': dict(
     level=('other', 'S: relational SX check on the real Lexer._token/_get_update_token/_set_tokens: for every placement of <= 2 layout items of symbolic kind among <= 2/3 real tokens of symbolic kind, z3 decides that the DIV/REGEX face given to a following slash-initial item equals the face without the layout. '
-                    'T: ~2500 (quick: every 5th) table-derived structures with a slash token in each grammatical role (incl. nested parentheses and headers) x 9 layouts: parse(text) must build the tree the real LALR tables + actions build from the token string in which DIV/REGEX are given.', 'DESIGN.md C05'),
+                    'T: ~2500 (quick: every 5th) table-derived structures with a slash token in each grammatical role (incl. nested parentheses and headers) x 14 layouts (incl. NBSP, VT/FF, BOM, CRLF, U+2028) and 4 regex spellings: parse(text) must build the tree the real LALR tables + actions build from the token string in which DIV/REGEX are given.', 'DESIGN.md C05'),
     note='Trusted: raw-token source models the regex level; token-level reference = real tables (C03). The T leg is exploration over a derived space.',
     technique='symbolic execution of the real lexer wrapper on symbolic token kinds (relational: with/without layout) + table-driven replay',
     engine='SX+GX'),
  'C12': dict(
     level=('other', 'P: one step of the real yacc error hook (Parser.p_error, _raise_syntax_error, format_lex_token) from an arbitrary symbolic lexer state under SX - every optional token present/absent, every token kind symbolic - z3 decides each test; any exception other than ECMASyntaxError on a feasible path is reported. '
-                    'E: exhaustive enumeration of every string of length <= 3/4 over 56/38 class representatives, all truncations and single-character corruptions of corpus programs, and long-run/deep-nesting stress inputs through parse() under the default recursion limit: termination, exception type, and that every quoted text at line:col in the message occurs there.', 'DESIGN.md C12'),
+                    'E: exhaustive enumeration of every string of length <= 3/4 over 56/38 class representatives, all truncations and single-character corruptions of corpus programs, and long-run/deep-nesting stress inputs through parse() under the default recursion limit: termination (30 s CPU budget; inputs aimed at unbounded regex backtracking included), exception type, and that every quoted text at line:col in the message occurs there and the column lies on that line.', 'DESIGN.md C12'),
     note='Trusted: class representatives w.r.t. the lexer patterns; the contract of auto_semi at end of input (decided in C04). The lexer error handlers (regex-driven) are covered by enumeration only - their regex operations on symbolic text are outside the SX model.',
     technique='symbolic execution of the real error hook from an arbitrary lexer state (z3 finite domains) + exhaustive enumeration of short strings',
     engine='SX'),
  'C14': dict(
-    level=('other', 'SX over symbolic call histories: one printer object (5 configurations incl. obfuscating rule stacks), a first call abandoned after a SYMBOLIC number of fragments (z3 Int compared with the fragment counter: paths = exactly the feasible abandon points + exhaustion) or raising mid-way, then reuse; the reused printer must yield the fragment sequence of a fresh one and every tree (deep snapshot incl. positions) must be unchanged; histories of length 2/3 over 4 trees incl. a 300-name scope; shortcut entry points compared with explicit calls.', 'DESIGN.md C14'),
+    level=('other', 'SX over symbolic call histories: one printer object (5 configurations incl. obfuscating rule stacks), a first call abandoned after a SYMBOLIC number of fragments (z3 Int compared with the fragment counter: paths = exactly the feasible abandon points + exhaustion) or raising mid-way, then reuse; the reused printer must yield the fragment sequence of a fresh one and every tree (deep snapshot incl. positions) must be unchanged; histories of length 2/3 over 4 trees incl. a 300-name scope and literals with line continuations; shortcut entry points compared with explicit calls.', 'DESIGN.md C14'),
     note='Trusted: fragment tuples compare by value. Outside: longer histories, interleaved generators.',
     technique='symbolic execution with a symbolic abandon index over bounded call histories of the real printers',
     engine='SX'),
  'C13': dict(
     level=('other', 'S: relational SX check on the real Lexer wrapper: the stream of real tokens (kinds, AUTOSEMI, DIV/REGEX faces) with comment items inserted at <= 2 gaps of <= 2/3 tokens of symbolic kind equals the stream without them, capture off and on, no comment handed over twice. '
-                    'T: structures x every gap x 7 comment spellings: tree equality with/without capture and vs the comment-free text; attached comments verbatim, located, ordered, unique; pretty-print/re-parse keeps tree and comment sequence; no line terminator between a restricted keyword and its operand.', 'DESIGN.md C13'),
+                    'Symbolic counterexamples are replayed as text. T: structures (incl. get/set as names and as accessors) x every gap x 7 comment spellings: tree equality with/without capture and vs the comment-free text; attached comments verbatim, located, ordered, unique; pretty-print/re-parse keeps tree and comment sequence; no line terminator between a restricted keyword and its operand.', 'DESIGN.md C13'),
     note='Trusted: a single-line comment is white space, a comment with a terminator acts as that terminator (7.4). One comment per text in T. The T leg is exploration.',
     technique='symbolic execution of the real lexer wrapper on symbolic token kinds (relational: with/without comments) + replay of comment placements',
     engine='SX+GX'),
  'C06': dict(
-    level=('other', 'P: the real Lexer.get_lexer_token/_update_newline_idx/_get_colno/lookup_colno run under SX on raw tokens whose offsets are sums of SYMBOLIC lengths and gaps and whose values carry 0-2 line terminators of SYMBOLIC kind (LF, CR, CRLF, U+2028, U+2029); z3 decides lineno, colno, lookup_colno and the whole newline index against a ghost count for all lengths. '
+    level=('other', 'P: the real Lexer.get_lexer_token/_update_newline_idx/_get_colno/lookup_colno run under SX on raw tokens whose offsets are sums of SYMBOLIC lengths and gaps and whose values carry 0-2 separators of SYMBOLIC kind (LF, CR, CRLF, U+2028, U+2029, or FF/NEL which must NOT count as terminators); z3 decides lineno, colno, lookup_colno and the whole newline index against a ghost count for all lengths. '
                     'R: z3 regular-language lemmas on the live patterns (line-terminator rules generate exactly the five sequences, keywords are identifiers, master-pattern order of punctuators, value tokens never start with /). '
-                    'S: every string of length <= 3/4 over 56/38 class representatives through the real lexer: order, value == source slice, only ES5 white space in the gaps, line/column by independent count, longest punctuator.', 'DESIGN.md C06'),
+                    'S: every string of length <= 3/4 over 56/38 class representatives through the real lexer: order, value == source slice, only ES5 white space in the gaps, line/column by independent count, longest punctuator; plus every character the live t_ignore skips and every separator/format/control code point below U+3100 around tokens.', 'DESIGN.md C06'),
     note='Trusted: the split model is derived from the live compiled pattern by probing; ply strips t_ignore first and tries master alternatives in order. Outside: more than 2 terminators per token in P; longer inputs in S.',
     technique='symbolic execution of the real lexer bookkeeping on symbolic lengths/terminator kinds (z3 Ints, finite domains) + z3 regular-language lemmas + exhaustive short-string enumeration',
     engine='SX+RX'),
  'C07': dict(
-    level=('other', 'E: exhaustive over a bounded space - 16 scope skeletons (functions, closures, catch, accessors, labels, hoisting, named function expressions) x every assignment of their name slots over an order/equality-complete pool of 5/12 spellings x 4/6 printer configurations, plus scopes of 230 and 500 names (generated names reach do/if/in) - each judged by an independent ES5 scope resolver (binding partition equal, free / property / top-level names unchanged, no reserved word, output parses, differs from the plain output only in identifier tokens). '
+    level=('other', 'E: exhaustive over a bounded space - 18 scope skeletons (functions, closures, catch, closures and nested catch inside a catch block, accessors, labels, hoisting, named function expressions) x every assignment of their name slots over an order/equality-complete pool of 5/12 spellings x 4/6 printer configurations, plus scopes of 230 and 500 names (generated names reach do/if/in) - each judged by an independent ES5 scope resolver (binding partition equal, free / property / top-level names unchanged, no reserved word, output parses, differs from the plain output only in identifier tokens). '
                     'N: NameGenerator under SX with a symbolic skipped symbol. The obfuscator inspects names only through ==, < and hashing, so its behaviour on a skeleton is determined by the equality/order pattern of the names, which the pool realises completely for <= 4 names; symbolic names through the real obfuscator were probed and rejected on cost (see DESIGN.md).', 'DESIGN.md C07'),
     note='Trusted: ref/scopes_ref.py as the reading of ES5 scoping; the completeness argument for the pool. Outside: other scope shapes, more than 4 distinct source names per skeleton, with/eval, function declarations inside blocks (unspecified in ES5).',
     technique='exhaustive enumeration of scope skeletons x name assignments judged by an independent scope resolver; symbolic execution (z3 strings) of the name generator',
@@ -86,12 +88,12 @@ CHECKS = {
  'C19': dict(
     level=('other', 'Evaluation of a literal spelling is CPython C code (ast.literal_eval) and cannot be executed symbolically here; that half is decided by differential enumeration against json.loads over boundary spellings (escapes, exponents, fractions, negative zero, unicode) x shapes x binding contexts x fold_ops. '
                     'The structural half runs the real extractor under SX with every string/number leaf spelling a z3 string and literal_eval an uninterpreted marker: for all spellings the value under the bound name is the literal structure with literal_eval applied to exactly each leaf (negation outside), nothing else added; the code never branches on a spelling, so these obligations are discharged syntactically (0 solver queries - stated).', 'DESIGN.md C19'),
-    note='Honest scope: the solver contributes nothing to the evaluation half; it is enumeration. Known deviations of literal_eval vs JSON (\\/ , surrogate pairs) are outside the enumerated spellings unless listed as findings.',
+    note='Honest scope: the solver contributes nothing to the evaluation half; it is enumeration. The deviations of literal_eval from JSON found by the enumeration (\\/ kept with its backslash, surrogate pairs not combined) are recorded as known findings.',
     technique='symbolic execution with uninterpreted literal evaluation (structure) + differential enumeration vs json.loads (evaluation)',
     engine='SX'),
  'C08': dict(
     level=('other', 'Inductive per production: the node every real p_* action builds from SYMBOLIC slot positions (z3 Ints, symbolic newline index) is printed by the real pretty, minify and obfuscating printers; for every fragment with an explicit position z3 decides - for all layouts at once - that it is the position of a token of the production spelled like the fragment (or like the recorded original name). '
-                    'Backed by a replay leg over corpus x 6 layouts (LF, CR, CRLF, U+2028/9, multi-line tokens) x 3 printers x comments on/off with two files chained, judged against the source text.', 'DESIGN.md C08'),
+                    'Backed by a replay leg over corpus x 6 layouts (LF, CR, CRLF, U+2028/9, multi-line tokens) x 3 printers x comments on/off with two files chained, and a tree with sources nested A > B > A, judged against the source text.', 'DESIGN.md C08'),
     note='Trusted: ply tracking (position of a non-terminal = its first token), validated by the replay leg; the lexer guarantee (C06) and node invariant (C11) are hypotheses of the inductive step. AUTOSEMI semicolons exempt as the property says.',
     technique='symbolic execution of the real parser actions and printers on symbolic token positions (z3 Ints + uninterpreted newline index), per production; whole-program replay',
     engine='SX'),
@@ -104,7 +106,7 @@ CHECKS = {
  'C09': dict(
     level=('other', 'Bounded/inductive symbolic execution of the real sourcemap.write, normalize_mapping_line(s), Names, Bookkeeper, encode_sourcemap (SX, z3 Ints for every position, length and index): '
                     'W = one step from an arbitrary valid writer state for each of 504 fragment shapes (induction over stream length), N = normalisation of symbolic lines of <= 4/5 segments with arbitrary carry (induction over lines), '
-                    'E = whole runs from the initial state on <= 2/3 fragments decoded from scratch by a spec decoder. A solver is the right tool: the defects live in running deltas whose wrong values appear only after particular sequences, and one inductive step covers all of them.', 'DESIGN.md C09'),
+                    'E = whole runs from the initial state on <= 2/3 fragments decoded from scratch by a spec decoder; C = 1400 concrete streams with LF/CR/CRLF in every position of a chunk (validates the text model; fall-back when a change makes the symbolic legs inconclusive). A solver is the right tool: the defects live in running deltas whose wrong values appear only after particular sequences, and one inductive step covers all of them.', 'DESIGN.md C09'),
     note='Trusted: z3; SX instrumentation; ref/sourcemap_ref.py as the reading of Source Map V3; the writer-state representation invariant (base case checked by leg E). Stub: encode_mappings (VLQ text) is C10. Outside: text shapes with more than two line pieces per fragment, fragments giving only one of line/column.',
     technique='symbolic execution of the real Python code with z3 (inductive step over an arbitrary symbolic writer state + bounded whole runs), differential against a spec decoder on the same symbolic segments',
     engine='SX'),
